@@ -26,6 +26,7 @@ pub fn c02(ctx: &mut Ctx) {
         // the same configuration built with a size query and a scratch write after every builder call
         roundtrip_case(l, "roundtrip-probed", p, Variant { reset: true, ..Variant::PROBED });
     });
+    super::common::roundtrip_iterator_histories(ctx, gens::sr_rr_spaces(Tier::Quick, ctx.seed), 60, 3);
     ctx.require_hit("round-trip-equal");
 }
 
@@ -40,6 +41,7 @@ pub fn c03(ctx: &mut Ctx) {
         roundtrip_case(l, "roundtrip", p, var);
         roundtrip_case(l, "roundtrip-probed", p, Variant { probe: true, reset: true, owned: idx % 5 != 4, wrap: Wrap::None })
     });
+    super::common::roundtrip_iterator_histories(ctx, gens::sdes_spaces(Tier::Quick, ctx.seed), 40, 3);
     ctx.require_hit("round-trip-equal");
 }
 
@@ -54,6 +56,7 @@ pub fn c04(ctx: &mut Ctx) {
         roundtrip_case(l, "roundtrip", p, var);
         roundtrip_case(l, "roundtrip-probed", p, Variant { probe: true, reset: true, owned: idx % 7 != 3, wrap: Wrap::None })
     });
+    super::common::roundtrip_iterator_histories(ctx, gens::bye_spaces(Tier::Quick, ctx.seed), 60, 3);
     ctx.require_hit("round-trip-equal");
 }
 
@@ -79,6 +82,6 @@ pub fn c05(ctx: &mut Ctx) {
         roundtrip_case(l, "roundtrip", p, var);
         roundtrip_case(l, "roundtrip-probed", p, Variant { probe: true, reset: true, owned: idx % 2 == 0, wrap: Wrap::None })
     });
+    super::common::roundtrip_iterator_histories(ctx, gens::fb_spaces(Tier::Quick, ctx.seed), 25, 3);
     ctx.require_hit("round-trip-equal");
-    let _ = Tier::Quick;
 }
